@@ -1,7 +1,6 @@
 package mercure
 
 import (
-	"net/url"
 	"sync"
 	"sync/atomic"
 
@@ -34,7 +33,7 @@ func NewLocalSubscriber(lastEventID string, logger Logger, topicSelectorStore *T
 	}
 
 	s.ID = id
-	s.EscapedID = url.QueryEscape(id)
+	s.EscapedID = escapeSubscriptionSegment(id)
 	s.RequestLastEventID = lastEventID
 
 	return s
